@@ -11,7 +11,7 @@ echo "{" > seeded/MATRIX.tmp
 first=1
 for d in seeded/C*-*/; do
   name=$(basename $d); own=${name%%-*}
-  git -C $W checkout -q -- . ; git -C $W apply $d/patch.diff 2>/dev/null || { echo "$name: patch does not apply" >&2; continue; }
+  git -C $W checkout -q -- . ; git -C $W apply $(pwd)/$d/patch.diff 2>/dev/null || { echo "$name: patch does not apply" >&2; continue; }
   if [ "$MODE" = all ]; then ids=$ALL; else ids=$own; fi
   res=""
   for id in $ids; do
